@@ -72,7 +72,7 @@ type Layout struct {
 	NL        string `json:"nl"`         // "\n", "\r\n", "\r"
 	Multi     int    `json:"multi"`      // 0 inline //, 1 /* */ on one line, 2 /* */ with the note on its own line
 	Quote     int    `json:"quote"`      // rule names: 0 bare, 1 quoted, 2 quoted at the top / bare in nested rule-sets, 3 the reverse, 4 every second name
-	Pad       int    `json:"pad"`        // 0..2 extra blanks around tokens
+	Pad       int    `json:"pad"`        // 0..2 extra blanks around tokens, 3 a tab, 4 a blank and a tab
 	Comments  int    `json:"comments"`   // 0 none, 1 '#' lines, 2 '###' blocks and end-of-line '#', 3 like 1 and end-of-line, but every comment is empty ('#' and nothing else), 4 like 2 plus a two-line ### block between a scalar and its annotation
 	LeadBlank int    `json:"lead_blank"` // blank lines before
 	TailBlank int    `json:"tail_blank"` // blank lines after
@@ -99,7 +99,16 @@ func (l Layout) comment(text string) string {
 	return "# " + text
 }
 
-func (l Layout) sp() string { return strings.Repeat(" ", l.Pad) }
+// sp is the padding between tokens: 0-2 blanks, 3 = one tab, 4 = a blank and a tab (the padding ends in a tab).
+func (l Layout) sp() string {
+	switch l.Pad {
+	case 3:
+		return "\t"
+	case 4:
+		return " \t"
+	}
+	return strings.Repeat(" ", l.Pad)
+}
 
 func (l Layout) ruleVal(v RuleVal) string {
 	switch v.K {
@@ -209,6 +218,8 @@ func (l Layout) node(sb *strings.Builder, n Node, a Ann, notes []string, indent,
 				n.Text = strings.ReplaceAll(n.Text, " | ", "|")
 			case l.Pad == 2:
 				n.Text = strings.ReplaceAll(n.Text, " | ", "  |  ")
+			case l.Pad >= 3:
+				n.Text = strings.ReplaceAll(n.Text, " | ", l.sp()+"|"+l.sp())
 			}
 		}
 		if l.Comments == 4 && ann != "" {
@@ -267,6 +278,9 @@ var SupportTypes = map[string]string{
 	"@base":   "{\n  \"bk\": 1\n}",
 	"@base2":  "{\n  \"bk2\": 2\n}",
 	"@marker": "{}", // an object type without properties: may be listed twice in an allOf
+	// named enum rules (registered with AddRule; see checks.regSupport)
+	"rule:@names": "[\"Tom\", \"b\"]",
+	"rule:@sizes": "[\n  12, // twelve\n  \"x\",\n  null\n]",
 }
 
 // TLC prints only ASCII: control characters inside decoded values travel as placeholders.
